@@ -72,10 +72,22 @@ Definition anon_counter_next (c : N) : N := (c + 1)%N.
 Definition py_or (o : option Z) (d : Z) : Z :=
   match o with Some z => if (z =? 0)%Z then d else z | None => d end.
 
-Inductive exn := IdentifierError | InvalidRequestError | CompileError.
+Inductive exn := IdentifierError | InvalidRequestError | CompileError | ArgumentError.
 Inductive result (A : Type) := Ok (a : A) | Raise (e : exn).
 Arguments Ok {A} a.
 Arguments Raise {A} e.
+
+(* ================= the dialect's limits as an engine sees them ================= *)
+Definition truthy (o : option Z) : bool := match o with Some z => negb (z =? 0)%Z | None => false end.
+
+(* DefaultDialect.__init__ (max_identifier_length=, label_length= arguments) followed by
+   DefaultDialect.initialize on the first connection: [detected] is what
+   _check_max_identifier_length(connection) returns.  Ok m = the engine starts with
+   dialect.max_identifier_length = m *)
+Definition initialize (class_maxid : Z) (user_maxid label_length detected : option Z) : result Z :=
+  let m0 := py_or user_maxid class_maxid in                       (* __init__ *)
+  let m := if truthy user_maxid then m0 else py_or detected m0 in  (* initialize *)
+  if truthy label_length && (py_or label_length 0 >? m)%Z then Raise ArgumentError else Ok m.
 
 (* ================= constraint / index names ================= *)
 Record dialect := { d_maxid : Z; d_idx : option Z; d_con : option Z }.
